@@ -437,6 +437,24 @@ pub fn run(rc: &mut RunCtx) {
             rc.end(res);
         }
     }
+    // (0b) end to end: frames that follow the end of the handshake (Connection.OpenOk),
+    //      however they are cut relative to it
+    if !rc.miri() {
+        for i in 0..rc.n(16, 200) {
+            let id = format!("hs-tail:{}", i);
+            if !rc.mine(&id) {
+                continue;
+            }
+            rc.begin(&id);
+            let mut res = CaseResult::new(id);
+            let mut r = Rng::for_case(seed, 6, 7_000_000 + i);
+            handshake_tail(&mut r, &mut res);
+            for p in crate::run::io_panics(&crate::run::take_panics()) {
+                res.violate("panic", format!("{} at {}", p.msg, p.loc));
+            }
+            rc.end(res);
+        }
+    }
     // (1) exhaustive single and double cuts of short streams
     let nshort = if rc.miri() { 1 } else { rc.n(6, 32) };
     for s in 0..nshort {
@@ -553,6 +571,109 @@ pub fn run(rc: &mut RunCtx) {
 
 /// End to end: the same server stream (a burst of deliveries, then silence) cut in
 /// different ways must produce the same client-visible history, completely.
+/// The server's bytes are [.. handshake .. OpenOk][tail]; the tail (heartbeats, a blocked
+/// notice, or the server's Connection.Close) reaches the client in the same read pass as
+/// OpenOk, in the same pass but cut somewhere, or only after `open` has returned. The
+/// client's reaction has to be the same function of the bytes every time.
+fn handshake_tail(r: &mut Rng, res: &mut CaseResult) {
+    use crate::reflex::{conn_close_frame, open_ok_frame, Action, Reflex};
+    use crate::session::{self, W};
+    use amq_protocol::protocol::connection::{AMQPMethod as Cn, Blocked};
+    let kind = r.below(3);
+    let (code, text) = (r.next() as u16, wire::rand_shortstr(r));
+    let mut tail: Vec<u8> = Vec::new();
+    match kind {
+        0 => {
+            for _ in 0..r.usize(1, 4) {
+                tail.extend(wire::enc_raw(wire::T_HEARTBEAT, 0, &[]));
+            }
+        }
+        1 => {
+            tail.extend(wire::enc_method(0, AMQPClass::Connection(Cn::Blocked(Blocked { reason: wire::rand_shortstr(r) }))));
+            if r.bool() {
+                tail.extend(wire::enc_raw(wire::T_HEARTBEAT, 0, &[]));
+            }
+        }
+        _ => tail.extend(conn_close_frame(code, &text)),
+    }
+    let what = ["heartbeats", "a blocked notice", "Connection.Close"][kind as usize];
+    let want_close = format!("ServerClosedConnection({},{:?})", code, text);
+    let cut = r.usize(1, tail.len() - 1);
+    let mut reactions: Vec<(String, String)> = Vec::new();
+    for mode in ["same chunk as OpenOk", "own chunk, same read pass", "cut inside, rest later", "after open returned"] {
+        let mut reflex = Reflex::default();
+        let mut first = open_ok_frame();
+        let mut later: Vec<u8> = Vec::new();
+        let mut acts = Vec::new();
+        match mode {
+            "same chunk as OpenOk" => {
+                first.extend(&tail);
+                acts.push(Action::Send(first));
+            }
+            "own chunk, same read pass" => {
+                acts.push(Action::Send(first));
+                acts.push(Action::Send(tail.clone()));
+            }
+            "cut inside, rest later" => {
+                first.extend(&tail[..cut]);
+                acts.push(Action::Send(first));
+                later = tail[cut..].to_vec();
+            }
+            _ => {
+                acts.push(Action::Send(first));
+                later = tail.clone();
+            }
+        }
+        reflex.on_open_do = Some(acts);
+        let (conn, h) = session::open_default(reflex);
+        let opened = match &conn {
+            Ok(_) => "Ok".to_string(),
+            Err(e) => format!("Err({})", ek(e)),
+        };
+        if !later.is_empty() {
+            h.inject(later);
+        }
+        let reaction = match conn {
+            Ok(mut conn) => {
+                // a first use, then close: what did the client make of the tail?
+                let usable = if kind == 2 {
+                    // wait until the close has been acted on
+                    h.wait(W, |st| st.reflex.got_conn_close_ok);
+                    "-".to_string()
+                } else {
+                    match conn.open_channel(None).and_then(|c| c.qos(0, 0, false)) {
+                        Ok(()) => "usable".to_string(),
+                        Err(e) => format!("unusable({})", ek(&e)),
+                    }
+                };
+                let t = crate::run::spawn("close", move || conn.close());
+                match t.join(W) {
+                    crate::run::J::Done(Ok(())) => format!("{} close=Ok", usable),
+                    crate::run::J::Done(Err(e)) => format!("{} close=Err({})", usable, ek(&e)),
+                    _ => format!("{} close hangs", usable),
+                }
+            }
+            Err(_) => "-".to_string(),
+        };
+        res.obs("handshake_tails", 1);
+        // what the bytes mean, whatever the cut
+        let ok = match kind {
+            0 | 1 => opened == "Ok" && reaction == "usable close=Ok",
+            _ => (opened == "Ok" && reaction == format!("- close=Err({})", want_close)) || opened == format!("Err({})", want_close),
+        };
+        if !ok {
+            res.violate(
+                "reaction_depends_on_segmentation",
+                format!("{} right behind Connection.OpenOk, delivered as '{}': open = {}, then {}; the same bytes delivered otherwise gave {:?}", what, mode, opened, reaction, reactions),
+            );
+            return;
+        }
+        reactions.push((opened, reaction));
+    }
+    res.sig = crate::rng::fnv_str(&format!("hs{}{}", kind, tail.len()));
+    res.sample = Some(json!({"tail": what, "tail_bytes": tail.len()}));
+}
+
 fn e2e_burst(r: &mut Rng, res: &mut CaseResult) {
     use crate::mock::Segmenter;
     use crate::reflex::{deliver_frames, even_partition, Msg, Reflex};
